@@ -28,7 +28,7 @@ RULE = ('generated (field of any kind with order > m, m<=8, every t with 2t<m, o
         'table functions with extreme outputs, bound in {1,2,2^k,order,order-1,>order}, uci bytes, batch n in 0,1,..40, '
         'per-party dict order); all m parties\' outputs interpolated: degree and secret decided by an independent '
         'Lagrange oracle, list vs array variants compared entrywise; plus enumerated cells: for every (m,t) with '
-        'm<=7 (quick) / 8 (thorough) over 5-7 small fields every unit assignment (one subset, one output position '
+        'm<=8 over 6 (quick) / 8 (thorough) small fields every unit assignment (one subset, one output position '
         '= 1, rest 0), a basis of the output space; non-trivial = t>=1, n>=1 and at least two subsets with a '
         'nonzero PRF output; distinct by case hash / enumerated unit assignment')
 ASSUMPTIONS = ['numpy 2.5.3 from the offline wheelhouse (array variants)',
@@ -51,31 +51,45 @@ def budget(tier):
 
 
 # ------------------------------------------------------------------ generators
-def _bounds(q):
-    out = {1, 2, q, max(1, q - 1), q + 1, 2 * q + 1, 1 << q.bit_length(), 1 << max(0, q.bit_length() - 1)}
-    return sorted(out)
+@st.composite
+def _bound(draw, q):
+    cat = draw(st.sampled_from(['order', 'order', 'pow2', 'pow2', 'two', 'rand', 'rand', 'order-1', 'above', 'one']))
+    if cat == 'order':
+        return q
+    if cat == 'pow2':
+        return 1 << draw(st.integers(0, max(0, q.bit_length() - 1)))
+    if cat == 'two':
+        return 2
+    if cat == 'rand':
+        return draw(st.integers(1, q))
+    if cat == 'order-1':
+        return max(1, q - 1)
+    if cat == 'above':
+        return draw(st.sampled_from([q + 1, 2 * q + 1, 1 << q.bit_length(), 1 << (q.bit_length() + 9)]))
+    return 1
 
 
 @st.composite
 def _case(draw, tier):
     spec = draw(FS.field_spec())
+    if FS.order(spec) <= MAX_M and draw(st.integers(0, 3)) > 0:  # tiny fields force tiny m: keep them rare
+        spec = draw(FS.field_spec())
     q = FS.order(spec)
     mmax = min(MAX_M, q - 1)
-    m = draw(st.one_of(st.integers(1, mmax), st.sampled_from([mmax, max(1, mmax - 1), min(3, mmax), min(5, mmax)])))
+    m = draw(st.sampled_from([mmax, mmax, max(1, mmax - 1), min(3, mmax), min(5, mmax), 0])) or draw(st.integers(1, mmax))
     tmax = (m - 1) // 2
-    t = draw(st.sampled_from(sorted({0, tmax, max(0, tmax - 1), min(1, tmax)})))
+    t = draw(st.one_of(st.just(tmax), st.integers(0, tmax)))
     nsub = len(list(itertools.combinations(range(m), m - t)))
-    bound = draw(st.one_of(st.sampled_from(_bounds(q)), st.integers(1, q),
-                           st.integers(0, q.bit_length()).map(lambda k: 1 << k)))
+    bound = draw(_bound(q))
     heavy = q.bit_length() > 64 or nsub > 20
-    n = draw(st.sampled_from([0, 1, 1, 2, 3, 5, 8] + ([] if heavy else [17, 40])))
+    n = draw(st.sampled_from([2, 1, 3, 5, 0, 8, 1] + ([] if heavy else [17, 40])))
     case = {'mode': 'gen', 'field': spec, 'm': m, 't': t, 'bound': bound, 'n': n,
             'uci': draw(st.one_of(st.binary(max_size=12), st.integers(-5, 2**40).map(
                 lambda v: v.to_bytes(8, 'little', signed=True)))).hex(),
             'rot': draw(st.integers(0, 7)),
             # F15a: for t >= 2 the entrywise comparison of the two zero variants is in the known class;
             # it is requested only now and then so that the rest of the search is not drowned by it
-            'zcmp': t < 2 or draw(st.integers(0, 7)) == 0}
+            'zcmp': True}  # F15a is fixed in /repo (0d6e662): always compare the two zero variants
     if draw(st.booleans()):
         pool = draw(st.lists(st.binary(max_size=16), min_size=1, max_size=3))
         keys = draw(st.lists(st.one_of(st.sampled_from(pool), st.binary(min_size=16, max_size=16),
@@ -119,8 +133,7 @@ def _unit_fields(m, tier):
 
 
 def enumerate_cases(tier):
-    top = 7 if tier == 'quick' else 8
-    for m in range(1, top + 1):
+    for m in range(1, MAX_M + 1):
         for t in range((m - 1) // 2 + 1):
             for spec in _unit_fields(m, tier):
                 yield {'mode': 'unit', 'field': spec, 'm': m, 't': t}
